@@ -5,8 +5,10 @@ histories of `register_or_name_value` / `register_or_name_node` calls, i.e. ever
 -/
 import IrVerif.Model.Names
 import IrVerif.Lemmas.Names
+import IrVerif.Lemmas.NamesGraph
 import IrVerif.Lemmas.NamesIdem
 import IrVerif.Lemmas.NamesModel
+import IrVerif.Lemmas.NamesOwned
 import IrVerif.Lemmas.NamesRename
 namespace IrVerif.Names
 
@@ -31,89 +33,6 @@ theorem C15_loop_terminates (seen : List String) (c : Nat) (op : String) :
     exact ⟨r, hr, fun fuel h => uniqueLoop_mono _ _ _ _ _ hr _ h⟩
   · obtain ⟨r, hr⟩ := uniqueLoop_total (sufName op) (fun _ _ => sufName_inj_k op) seen c
     exact ⟨r, hr, fun fuel h => uniqueLoop_mono _ _ _ _ _ hr _ h⟩
-
-/-! ### one call -/
-
-/-- a generated name is not in the seen set of its namespace at that moment -/
-theorem step_fresh (a : Auth) (op : Op) (h : (step a op).2.generated = true) :
-    (step a op).2.name ∉ a.seen (step a op).2.isNode := by
-  cases op with
-  | value name =>
-    cases name with
-    | some s => simp [step] at h
-    | none =>
-      obtain ⟨k, _, he, hn, _⟩ := uniqueFrom_spec valName (fun _ _ => valName_inj) a.vnames a.vc
-      simp [step, he, Auth.seen, hn]
-  | node name o =>
-    cases name with
-    | some s => simp [step] at h
-    | none =>
-      obtain ⟨k, _, he, hn, _⟩ := uniqueFrom_spec (nodeName o) (fun _ _ => nodeName_inj o) a.nnames a.nc
-      simp [step, he, Auth.seen, hn]
-
-/-- the name an object has after the call is in the seen set afterwards -/
-theorem step_registers (a : Auth) (op : Op) :
-    (step a op).2.name ∈ (step a op).1.seen (step a op).2.isNode := by
-  cases op with
-  | value name => cases name <;> simp [step, Auth.seen]
-  | node name o => cases name <;> simp [step, Auth.seen]
-
-/-- seen sets never shrink, counters never decrease -/
-theorem step_mono (a : Auth) (op : Op) :
-    (∀ b x, x ∈ a.seen b → x ∈ (step a op).1.seen b) ∧ a.vc ≤ (step a op).1.vc ∧ a.nc ≤ (step a op).1.nc := by
-  cases op with
-  | value name =>
-    cases name with
-    | some s =>
-      refine ⟨?_, by simp [step], by simp [step]⟩
-      intro b x hx; cases b <;> simp_all [step, Auth.seen]
-    | none =>
-      obtain ⟨k, hk, he, _, _⟩ := uniqueFrom_spec valName (fun _ _ => valName_inj) a.vnames a.vc
-      refine ⟨?_, by simp [step, he]; omega, by simp [step]⟩
-      intro b x hx; cases b <;> simp_all [step, Auth.seen]
-  | node name o =>
-    cases name with
-    | some s =>
-      refine ⟨?_, by simp [step], by simp [step]⟩
-      intro b x hx; cases b <;> simp_all [step, Auth.seen]
-    | none =>
-      obtain ⟨k, hk, he, _, _⟩ := uniqueFrom_spec (nodeName o) (fun _ _ => nodeName_inj o) a.nnames a.nc
-      refine ⟨?_, by simp [step], by simp [step, he]; omega⟩
-      intro b x hx; cases b <;> simp_all [step, Auth.seen]
-
-theorem run_cons (op : Op) (ops : List Op) (a : Auth) :
-    (run (op :: ops) a).2 = (step a op).2 :: (run ops (step a op).1).2 := by
-  simp [run]
-
-theorem run_cons_fst (op : Op) (ops : List Op) (a : Auth) :
-    (run (op :: ops) a).1 = (run ops (step a op).1).1 := by
-  simp [run]
-
-/-- along any history: seen sets only grow and the counters only increase -/
-theorem run_mono (ops : List Op) : ∀ (a : Auth),
-    (∀ b x, x ∈ a.seen b → x ∈ (run ops a).1.seen b) ∧ a.vc ≤ (run ops a).1.vc ∧ a.nc ≤ (run ops a).1.nc := by
-  induction ops with
-  | nil => intro a; simp [run]
-  | cons op ops ih =>
-    intro a
-    obtain ⟨h1, h2, h3⟩ := step_mono a op
-    obtain ⟨g1, g2, g3⟩ := ih (step a op).1
-    rw [run_cons_fst]
-    exact ⟨fun b x hx => g1 b x (h1 b x hx), by omega, by omega⟩
-
-/-- every name a history hands out or registers is in the final seen set of its namespace -/
-theorem run_registers (ops : List Op) : ∀ (a : Auth) (e : Ev), e ∈ (run ops a).2 →
-    e.name ∈ (run ops a).1.seen e.isNode := by
-  induction ops with
-  | nil => intro a e h; simp [run] at h
-  | cons op ops ih =>
-    intro a e h
-    rw [run_cons] at h
-    rw [run_cons_fst]
-    rcases List.mem_cons.mp h with h | h
-    · subst h
-      exact (run_mono ops (step a op).1).1 _ _ (step_registers a op)
-    · exact ih _ _ h
 
 /-! ### C15_fresh -/
 
@@ -161,36 +80,126 @@ theorem C15_monotone (ops : List Op) (a : Auth) :
     ∧ ∀ e ∈ (run ops a).2, e.name ∈ (run ops a).1.seen e.isNode :=
   ⟨(run_mono ops a).1, (run_mono ops a).2.1, (run_mono ops a).2.2, run_registers ops a⟩
 
-/-! ### C15_explicit_kept -/
+/-! ### the graph level: every way a name reaches or leaves the graph -/
 
-theorem run_length (ops : List Op) : ∀ a, (run ops a).2.length = ops.length := by
-  induction ops with
-  | nil => intro a; simp [run]
-  | cons op ops ih => intro a; simp [run_cons, ih]
+/-- **C15_carried**: along any history of attaching (`register_or_name_*`, joining inputs / outputs
+/ initializers), detaching, and renaming (`value.name = …`, `node.name = …`) objects, every name
+carried by a value or node the graph currently owns is in the authority's seen set. -/
+theorem C15_carried (ops : List GOp) (st : GSt) (h : Carried st) : Carried (grun ops st) :=
+  grun_carried ops st h
 
-/-- **C15_explicit_kept**: in any history, a call made for an object whose name is not `None`
-(the empty string included) leaves that name exactly as given — whatever has been seen before
-(duplicates and generated-looking names included). -/
-theorem C15_explicit_kept (ops : List Op) : ∀ (a : Auth) (i : Nat),
-    (∀ s, ops[i]? = some (Op.value (some s)) → (run ops a).2[i]? = some ⟨false, false, s⟩)
-    ∧ (∀ s o, ops[i]? = some (Op.node (some s) o) → (run ops a).2[i]? = some ⟨true, false, s⟩) := by
-  induction ops with
-  | nil => intro a i; simp
-  | cons op ops ih =>
-    intro a i
-    cases i with
-    | zero =>
-      constructor
-      · intro s h
-        simp only [List.getElem?_cons_zero, Option.some.injEq] at h
-        subst h; simp [run_cons, step]
-      · intro s o h
-        simp only [List.getElem?_cons_zero, Option.some.injEq] at h
-        subst h; simp [run_cons, step]
-    | succ j =>
-      simp only [List.getElem?_cons_succ, run_cons]
-      exact ih _ j
+/-- **C15_graph_fresh**: a name the graph generates for an unnamed value (node) differs from the
+name carried by *any* value (node) the graph owned at *any* earlier moment of the history (`st1`,
+after the prefix `pre1`) — whether that name came through the constructor, an added node, the
+inputs / outputs / initializers containers or a rename — and from every name the authority knew
+initially. -/
+theorem C15_graph_fresh (pre1 pre2 : List GOp) (st0 : GSt) (h0 : Carried st0) :
+    (∀ v, (grun pre2 (grun pre1 st0)).vname v = none →
+        (∀ u ∈ (grun pre1 st0).vown, (gstep (grun pre2 (grun pre1 st0)) (.regValue v)).vname v ≠ (grun pre1 st0).vname u)
+        ∧ ∀ s ∈ st0.auth.vnames, (gstep (grun pre2 (grun pre1 st0)) (.regValue v)).vname v ≠ some s)
+    ∧ (∀ n op, (grun pre2 (grun pre1 st0)).nname n = none →
+        (∀ m ∈ (grun pre1 st0).nown, (gstep (grun pre2 (grun pre1 st0)) (.regNode n op)).nname n ≠ (grun pre1 st0).nname m)
+        ∧ ∀ s ∈ st0.auth.nnames, (gstep (grun pre2 (grun pre1 st0)) (.regNode n op)).nname n ≠ some s) := by
+  have c1 := grun_carried pre1 st0 h0
+  have m01 := grun_mono pre1 st0
+  have m12 := grun_mono pre2 (grun pre1 st0)
+  constructor
+  · intro v hv
+    have hf := step_fresh (grun pre2 (grun pre1 st0)).auth (.value none) (by simp [step])
+    have hk : (step (grun pre2 (grun pre1 st0)).auth (.value none)).2.isNode = false := by simp [step]
+    rw [hk] at hf
+    have hname : (gstep (grun pre2 (grun pre1 st0)) (.regValue v)).vname v
+        = some (step (grun pre2 (grun pre1 st0)).auth (.value none)).2.name := by
+      simp [gstep, hv]
+    rw [hname]
+    constructor
+    · intro u hu he
+      exact hf (by simpa [Auth.seen] using m12.1 _ (c1.values u hu _ he.symm))
+    · intro s hs he
+      cases he
+      exact hf (by simpa [Auth.seen] using m12.1 _ (m01.1 _ hs))
+  · intro n op hn
+    have hf := step_fresh (grun pre2 (grun pre1 st0)).auth (.node none op) (by simp [step])
+    have hk : (step (grun pre2 (grun pre1 st0)).auth (.node none op)).2.isNode = true := by simp [step]
+    rw [hk] at hf
+    have hname : (gstep (grun pre2 (grun pre1 st0)) (.regNode n op)).nname n
+        = some (step (grun pre2 (grun pre1 st0)).auth (.node none op)).2.name := by
+      simp [gstep, hn]
+    rw [hname]
+    constructor
+    · intro m hm he
+      exact hf (by simpa [Auth.seen] using m12.2 _ (c1.nodes m hm _ he.symm))
+    · intro s hs he
+      cases he
+      exact hf (by simpa [Auth.seen] using m12.2 _ (m01.2 _ hs))
 
+theorem gstep_keeps_value (st : GSt) (op : GOp) (v : Nat) (s : String) (h : st.vname v = some s)
+    (hop : ∀ name, op ≠ .setValue v name) : (gstep st op).vname v = some s := by
+  cases op with
+  | regValue u =>
+    simp only [gstep]
+    by_cases huv : v = u
+    · subst huv; simp [h, step]
+    · rw [upd_ne _ _ huv]; exact h
+  | regNode n o => exact h
+  | noteValue u => exact h
+  | setValue u name =>
+    simp only [gstep]
+    split
+    · exact h
+    · have : v ≠ u := fun e => hop name (by rw [e])
+      simp only; rw [upd_ne _ _ this]; exact h
+  | setNode n name => exact h
+  | dropValue u => exact h
+  | dropNode n => exact h
+
+theorem gstep_keeps_node (st : GSt) (op : GOp) (n : Nat) (s : String) (h : st.nname n = some s)
+    (hop : ∀ name, op ≠ .setNode n name) : (gstep st op).nname n = some s := by
+  cases op with
+  | regValue u => exact h
+  | regNode m o =>
+    simp only [gstep]
+    by_cases hnm : n = m
+    · subst hnm; simp [h, step]
+    · rw [upd_ne _ _ hnm]; exact h
+  | noteValue u => exact h
+  | setValue u name =>
+    simp only [gstep]
+    split <;> exact h
+  | setNode m name =>
+    have : n ≠ m := fun e => hop name (by rw [e])
+    simp only [gstep]; rw [upd_ne _ _ this]; exact h
+  | dropValue u => exact h
+  | dropNode m => exact h
+
+/-- **C15_explicit_kept**: along any history, a value (node) that has a name — the empty string
+included — keeps exactly that name unless the *user* assigns to it: constructing the graph, adding,
+re-adding, inserting nodes, joining inputs / outputs / initializers, and naming *other* objects
+never alter it, whatever has been seen before. -/
+theorem C15_explicit_kept : ∀ (ops : List GOp) (st : GSt),
+    (∀ v s, st.vname v = some s → (∀ name, GOp.setValue v name ∉ ops) → (grun ops st).vname v = some s)
+    ∧ (∀ n s, st.nname n = some s → (∀ name, GOp.setNode n name ∉ ops) → (grun ops st).nname n = some s)
+  | [], st => ⟨fun _ _ h _ => h, fun _ _ h _ => h⟩
+  | op :: ops, st => by
+    obtain ⟨a, b⟩ := C15_explicit_kept ops (gstep st op)
+    constructor
+    · intro v s h hno
+      rw [grun_cons]
+      exact a v s (gstep_keeps_value st op v s h (fun name e => hno name (e ▸ List.mem_cons_self)))
+        (fun name hm => hno name (List.mem_cons_of_mem _ hm))
+    · intro n s h hno
+      rw [grun_cons]
+      exact b n s (gstep_keeps_node st op n s h (fun name e => hno name (e ▸ List.mem_cons_self)))
+        (fun name hm => hno name (List.mem_cons_of_mem _ hm))
+
+/-- the E2 histories: a value named "val_0" joins the inputs (`noteValue`), or an owned value is
+renamed to "val_0" — the next unnamed value gets "val_1" -/
+example : (grun [.noteValue 0, .regNode 0 "Add", .regValue 1]
+    { vname := fun i => if i = 0 then some "val_0" else none, nname := fun _ => none }).vname 1 = some "val_1" := by
+  decide
+example : ((List.range 3).map (grun [.regValue 0, .setValue 0 (some "val_1"), .regValue 1, .dropValue 0, .regValue 2]
+    { vname := fun _ => none, nname := fun _ => none }).vname) = [some "val_1", some "val_2", some "val_3"] := by
+  decide
 /-! ### non-vacuity -/
 
 /-- the explicit name "val_1" makes the generator skip 1: val_0, (explicit val_1), val_2 -/
@@ -357,26 +366,55 @@ theorem C15_namefix_idempotent (w : World) (tops : List Top) (wf : PassWF w tops
   exact fixModel_stable w.inits _ (fun g u => p5 g u) tops
     (fun t ht => ⟨(wf.each t ht).2.1, (wf.each t ht).2.2, (p1 t ht).1, (p1 t ht).2⟩)
 
-/-! ## Part C — `convenience.rename_values` -/
+/-- **C15_scoped_of_well_owned**: the scoping hypothesis of the theorems above follows from a
+declarative *ownership rule* that does not mention traversal order: every value a node mentions is
+owned (as input, output, initializer or node output) by the node's graph or by an enclosing graph,
+and different graphs own different values.  In particular unsorted graphs, forward references and
+forward captures (a subgraph using a value that an enclosing graph defines *later*) are covered. -/
+theorem C15_scoped_of_well_owned (iv : Nat → List Nat) (t : Top) (hw : wellOwnedB iv t.tr [] = true)
+    (hd : (ownedLists iv t.tr).Pairwise DisjointL) : scopedB iv t.tr [] [] = true :=
+  (scoped_of_wellOwned iv t.tr [] [] [] (fun _ h => h) (fun _ h => h) hw (fun _ _ _ _ h => by simp at h) hd).1
+
+/-! ## Part C — `convenience.rename_values` (with the backing tensors) -/
 
 /-- **C15_rename_values_atomic**: for *every* assignment (repeated values, swaps, cycles,
 initializers of several graphs, empty targets, targets colliding with initializers inside or
-outside the renamed set) on a world whose initializers are keyed by their names, the call either
-raises and leaves the world exactly as it was, or it does not raise and then the assignment is
-applied completely: every listed value has its target name, no other value changed its name, node
-names and `is_initializer()`/graph links are untouched, every initializer dictionary holds the
-same values and is keyed by the current names. -/
-theorem C15_rename_values_atomic (w : World) (pairs : List (Nat × String)) (hok : InitsOk w) :
-    ((renameValues w pairs).2 = true → (renameValues w pairs).1 = w)
-    ∧ ((renameValues w pairs).2 = false →
-        (∀ p ∈ pairs, (renameValues w pairs).1.vname p.1 = some p.2)
-        ∧ (∀ u, u ∉ pairs.map (·.1) → (renameValues w pairs).1.vname u = w.vname u)
-        ∧ (renameValues w pairs).1.nname = w.nname
-        ∧ (renameValues w pairs).1.initOf = w.initOf
-        ∧ InitsOk (renameValues w pairs).1
-        ∧ ∀ g u, u ∈ (renameValues w pairs).1.inits g ↔ u ∈ w.inits g) :=
-  renameValues_spec w pairs hok
+outside the renamed set, backing tensors shared between values, tensors that refuse a name) on a
+world whose initializers are keyed by their names, the call either raises and leaves the world —
+names, dictionaries *and tensor names* (the rollback) — exactly as it was, or it does not raise and
+then the assignment is applied completely: every listed value has its target name, no other value
+changed its name, node names and `is_initializer()`/graph links are untouched, every initializer
+dictionary holds the same values and is keyed by the current names, a backing tensor carries the
+target of the values it backs (when they agree) and all other tensors keep their names. -/
+theorem C15_rename_values_atomic (w : TWorld) (pairs : List (Nat × String)) (hok : InitsOk w.toWorld) :
+    ((renameValuesT w pairs).2 = true → (renameValuesT w pairs).1 = w)
+    ∧ ((renameValuesT w pairs).2 = false →
+        (∀ p ∈ pairs, (renameValuesT w pairs).1.vname p.1 = some p.2)
+        ∧ (∀ u, u ∉ pairs.map (·.1) → (renameValuesT w pairs).1.vname u = w.vname u)
+        ∧ (renameValuesT w pairs).1.nname = w.nname
+        ∧ (renameValuesT w pairs).1.initOf = w.initOf
+        ∧ InitsOk (renameValuesT w pairs).1.toWorld
+        ∧ (∀ g u, u ∈ (renameValuesT w pairs).1.toWorld.inits g ↔ u ∈ w.toWorld.inits g)
+        ∧ (renameValuesT w pairs).1.constOf = w.constOf
+        ∧ (∀ p ∈ pairs, ∀ t, renTensor w p = some t → (∀ q ∈ pairs, renTensor w q = some t → q.2 = p.2) →
+              (renameValuesT w pairs).1.tname t = some p.2)
+        ∧ (∀ t, (∀ q ∈ pairs, renTensor w q ≠ some t) → (renameValuesT w pairs).1.tname t = w.tname t)) :=
+  renameValuesT_spec w pairs hok
 
+/-- **C15_rename_values_succeeds**: the call does *not* raise (so, by `C15_rename_values_atomic`,
+it applies the whole assignment) whenever no value is given two different targets, initializers
+get non-empty targets that are pairwise different within their graph and are not held by an
+initializer outside the renamed set, and no backing tensor refuses its new name.  Every swap,
+cycle or other permutation of the names of a set of values — initializers included — satisfies
+these conditions. -/
+theorem C15_rename_values_succeeds (w : TWorld) (pairs : List (Nat × String)) (hok : InitsOk w.toWorld)
+    (hcons : ∀ p ∈ pairs, ∀ q ∈ pairs, p.1 = q.1 → p.2 = q.2)
+    (hne : ∀ p ∈ pairs, w.initOf p.1 ≠ none → p.2 ≠ "")
+    (hdist : ∀ p ∈ pairs, ∀ q ∈ pairs, w.initOf p.1 ≠ none → w.initOf p.1 = w.initOf q.1 → p.2 = q.2 → p.1 = q.1)
+    (hout : ∀ p ∈ pairs, ∀ g, w.initOf p.1 = some g → ∀ u, (p.2, u) ∈ w.dicts g → u ∈ pairs.map (·.1))
+    (hfz : ∀ p ∈ pairs, ∀ t, renTensor w p = some t → w.frozen t = false) :
+    (renameValuesT w pairs).2 = false :=
+  renameValuesT_succeeds w pairs hok hcons hne hdist hout hfz
 
 /-! ## non-vacuity of the hypotheses of parts B and C -/
 
@@ -467,11 +505,44 @@ example : ((List.range 5).map (fixModel exW2 [exT2, exT3]).1.vname)
       = [some "n", some "n_2", some "n_1", some "node", some "node"] := by
   decide
 
-/-- `rename_values`: a swap of two initializers goes through; a target held by an initializer
-outside the renamed set is rejected with nothing changed -/
-example : (renameValues exW [(1, "w_1"), (2, "w")]).2 = false
-    ∧ (renameValues exW [(1, "w_1"), (2, "w")]).1.dicts 0 = [("w_1", 1), ("w", 2)]
-    ∧ (renameValues exW [(0, "z"), (1, "w_1")]).2 = true := by
+/-- the D30 world with tensors: values 1 and 2 share tensor 0 ("w"), tensor 1 refuses names -/
+def exTW : TWorld :=
+  { toWorld := exW
+    constOf := fun v => if v = 1 then some 0 else if v = 2 then some 0 else if v = 0 then some 1 else none
+    tname := fun t => if t = 0 then some "w" else if t = 1 then some "frozen" else none
+    frozen := fun t => t = 1 }
+
+/-- `rename_values`: a swap of two initializers goes through (the shared tensor ends with the
+last target); a target held by an initializer outside the renamed set is rejected with nothing
+changed; a refusing tensor makes the call raise *after* tensor 0 was renamed, and the rollback
+restores it -/
+example : (renameValuesT exTW [(1, "w_1"), (2, "w")]).2 = false
+    ∧ (renameValuesT exTW [(1, "w_1"), (2, "w")]).1.dicts 0 = [("w_1", 1), ("w", 2)]
+    ∧ (renameValuesT exTW [(1, "w_1"), (2, "w")]).1.tname 0 = some "w"
+    ∧ (renameValuesT exTW [(0, "z"), (1, "w_1")]).2 = true
+    ∧ (renameValuesT exTW [(1, "q"), (0, "z")]).2 = true
+    ∧ (renameValuesT exTW [(1, "q"), (0, "z")]).1.tname 0 = some "w" := by
+  decide
+
+/-- the hypotheses of `C15_rename_values_succeeds` hold for the swap -/
+example : (∀ p ∈ [(1, "w_1"), (2, "w")], ∀ t, renTensor exTW p = some t → exTW.frozen t = false) := by decide
+
+/-- forward capture (D221): main graph `[A{body: I(x)}, B -> x, C -> x]`: the subgraph of `A` uses
+`B`'s output, defined later; the model is well scoped for the fixed traversal and `C`'s output is
+renamed -/
+def exW4 : World :=
+  { vname := fun i => if i = 0 then some "a" else if i = 1 then some "x" else if i = 2 then some "x"
+                      else if i = 3 then some "i" else none
+    nname := fun i => if i = 0 then some "A" else if i = 1 then some "B" else if i = 2 then some "C"
+                      else if i = 3 then some "I" else none
+    initOf := fun _ => none
+    dicts := fun _ => [] }
+def exBody4 : Tr :=
+  .node 0 [] [0] (.graph 1 true [] [3] (.node 3 [some 1] [3] .nil .nil) .nil)
+    (.node 1 [] [1] .nil (.node 2 [] [2] .nil .nil))
+def exT4 : Top := { gid := 0, isGraph := true, ins := [], outs := [], body := exBody4 }
+example : scopedB exW4.inits exT4.tr [] [] = true
+    ∧ ((List.range 4).map (fixModel exW4 [exT4]).1.vname) = [some "a", some "x", some "x_1", some "i"] := by
   decide
 
 end IrVerif.Names
